@@ -4,9 +4,9 @@ CONSTANTS MaxOps = 4
  Fams = {"cache", "sig", "over", "attr"}
  Record = TRUE
  EmitAll = TRUE
- ExtReadd = "refuse"
- PutMode = "refuse"
- TypeMode = "refuse"
+ ExtReadd = "replace"
+ PutMode = "invalidate"
+ TypeMode = "shadow"
  CopyMode = "deep1"
  AttrMode = "tuple"
 INVARIANT CopyIsolation
@@ -15,5 +15,4 @@ INVARIANT InstalledInOrder
 INVARIANT PrefixOnRaise
 INVARIANT ReaddRefused
 INVARIANT DeterminedByExtensions
-INVARIANT NoDivergence
 CHECK_DEADLOCK FALSE
